@@ -230,7 +230,20 @@ func (e *v6Env) submit(again *v6Sub) {
 	}
 	candValue, _ := tls.Marshal(*candLeaf)
 	s.wantExtra, _ = util.ExtraDataForChain(ct.ASN1Cert{Data: s.chainDER[0]}, v6ASN1(s.stored), s.precert)
-	op := fmt.Sprintf("sub %s %s %s", verifkit.Hex(s.idHash[:]), verifkit.Hex(candValue), verifkit.Hex(s.wantExtra))
+	// The model builds the MerkleTreeLeaf bytes itself from the RFC 6962 layout (certificate / issuer key hash + TBS and
+	// the clock's millisecond); `candValue` (the repo's own serializer) is only used to cross-check the harness.
+	var op string
+	if s.precert {
+		pe := candLeaf.TimestampedEntry.PrecertEntry
+		op = fmt.Sprintf("subp %s %d %s %s %s", verifkit.Hex(s.idHash[:]), nowMillis, verifkit.Hex(pe.IssuerKeyHash[:]), verifkit.Hex(pe.TBSCertificate), verifkit.Hex(s.wantExtra))
+		ikh := sha256.Sum256(path[1].RawSubjectPublicKeyInfo)
+		if ikh != pe.IssuerKeyHash {
+			e.out.Fail(key, "issuer key hash of the precert leaf is not SHA-256 of the issuer's SubjectPublicKeyInfo")
+		}
+	} else {
+		op = fmt.Sprintf("subx %s %d %s %s", verifkit.Hex(s.idHash[:]), nowMillis, verifkit.Hex(s.chainDER[0]), verifkit.Hex(s.wantExtra))
+	}
+	_ = candValue
 	if err != nil {
 		e.out.T(op, "err")
 		e.out.Fail(key, "a valid chain was refused: "+err.Error())
